@@ -357,12 +357,9 @@ class AbstractBasis:
     def split_bases(self) -> List['AbstractBasis']:
         """Return Basis objects for the solution components."""
         if isinstance(self.elem, ElementComposite):
-            return [type(self)(self.mesh, e, self.mapping,
-                               quadrature=self.quadrature)
-                    for e in self.elem.elems]
+            return [self.with_element(e) for e in self.elem.elems]
         elif isinstance(self.elem, ElementVector):
-            return [type(self)(self.mesh, self.elem.elem, self.mapping,
-                               quadrature=self.quadrature)
+            return [self.with_element(self.elem.elem)
                     for _ in range(self.elem.dim)]
         return [self]
 
